@@ -205,7 +205,7 @@ theorem pipe_where (c : Ctx) (hg : c.grammar = grammar) (hH : OperandNotParen c.
           right; exact ⟨vals ++ [.str t.v, .str []], caps ++ [("Where", [v])], cur', by simp [h, parseSeq_nil], hl'⟩
 
 
-theorem dSource_cv {f : Nat} {toks r : List Tok} {s : Source} (h : dSource f toks = some (s, r)) :
+theorem dSource_cvM {f : Nat} {toks r : List Tok} {s : Source} (h : dSource f toks = some (s, r)) :
     cvSource s + 8 * r.length ≤ 8 * toks.length + 8 := by
   cases toks with
   | nil => simp [dSource] at h
@@ -376,7 +376,7 @@ theorem simPipe (c : Ctx) (hg : c.grammar = grammar) (hH : OperandNotParen c.tok
               cases hd : dSource fd (c.toks.drop (1+1+1+1)) with
               | some res =>
                 obtain ⟨sr, rest⟩ := res
-                have hcv := dSource_cv hd
+                have hcv := dSource_cvM hd
                 rw [hd] at hs
                 obtain ⟨v, cur', h, hrel, hrest, hlt', hle'⟩ := hs
                 subst hrest
